@@ -1,6 +1,6 @@
 #!/usr/bin/env python3
 """C07 - value order / equality / hash laws and the collection filters' algebra (DESIGN.md §3 C07)."""
-import os, sys, collections, itertools, struct
+import os, sys, collections, itertools, struct, fractions
 sys.path.insert(0, os.path.dirname(os.path.dirname(os.path.abspath(__file__))))
 from vlib import *
 
@@ -123,12 +123,58 @@ def cross_class(a, b):
     return bool(cross_classes(a, b))
 
 
+ORDER = "sorted"      # which ValueMap the current target has: "sorted" (BTreeMap) or "insertion" (IndexMap, feature preserve_order)
+
+
 def sorted_pairs(m):
-    # only used for the small maps of the pool, whose keys are strings / small ints / bool / float of one kind each
+    """the pairs of a map description in iteration order (the description lists insertion order).  Only used for the
+    small maps of the pools, whose keys are distinct strings / small ints / bool / float of one kind each."""
+    if ORDER == "insertion":
+        return list(m[1])
     def k(p):
         kk = p[0]
         return (kind_rank(kk), flat(kk)[1:] if kk[0] != 's' else list(kk[2]))
     return sorted(m[1], key=k)
+
+
+def reordered(a, b):
+    """two maps whose keys do not line up in iteration order, at the top or at corresponding positions (mirrors Spec.reordered)"""
+    ta, tb = a[0], b[0]
+    seqs = ('l', 't', 'it')
+    if ta in seqs and tb in seqs:
+        return any(reordered(x, y) for x, y in zip(items_of(a), items_of(b)))
+    if ta == tb == 'm':
+        for (k1, v1), (k2, v2) in zip(sorted_pairs(a), sorted_pairs(b)):
+            if not same_key(k1, k2) or reordered(v1, v2):
+                return True
+    return False
+
+
+def same_key(k1, k2):
+    """cmp = Equal for the scalar keys of the pools (numbers by value, everything else by canonical form)"""
+    num = ('i', 'f')
+    if k1[0] in num and k2[0] in num and not has_nan(k1) and not has_nan(k2):
+        def val(k):
+            if k[0] == 'i': return fractions.Fraction(k[2])
+            x = struct.unpack('<d', struct.pack('<Q', k[1]))[0]
+            return fractions.Fraction(x) if x == x and abs(x) != float('inf') else x
+        return val(k1) == val(k2)
+    return ckey(k1) == ckey(k2)
+
+
+def all_keys(v):
+    t = v[0]
+    if t in ('l', 't'): return [k for x in v[1] for k in all_keys(x)]
+    if t == 'it': return [k for x in v[2] for k in all_keys(x)]
+    if t == 'm': return [k for kk, x in v[1] for k in [kk] + all_keys(kk) + all_keys(x)]
+    return []
+
+
+def hash_dependent(a, b):
+    """IndexMap lookups between two keys that are == but hash differently (bool vs number) depend on the map's random
+    hasher state (hashbrown compares 7 hash bits before calling ==): such pairs are left out of the IndexMap target"""
+    xs = [a] + all_keys(a); ys = [b] + all_keys(b)
+    return any('bool-number' in cross_classes(x, y) for x in xs for y in ys)
 
 
 def kind_rank(v):
@@ -201,6 +247,8 @@ def check_pair_laws(tab, profile, report):
         for j in range(n):
             r = tab.get(i, j)
             a, b = pool[i], pool[j]
+            if r == ["skipped"]:
+                continue
             if len(r) != 7 or any(not isinstance(x, int) for x in r):
                 report("no-panic", "comparison / hashing / template operator crashed or failed: output %r" % (r,), (i, j), profile)
                 continue
@@ -252,7 +300,8 @@ def check_triple_laws(tab, profile, report, triples):
 # ----------------------------------------------------------------------------------------
 # filters: case generation
 # ----------------------------------------------------------------------------------------
-FID = {"sort": 0, "unique": 1, "groupby": 2, "batch": 3, "slice": 4, "reverse": 5, "min": 6, "max": 7, "reverse2": 8, "last": 9}
+FID = {"sort": 0, "unique": 1, "groupby": 2, "batch": 3, "slice": 4, "reverse": 5, "min": 6, "max": 7, "reverse2": 8, "last": 9,
+       "dictsort": 10, "items": 11, "map": 12, "select": 13, "reject": 14, "sum": 15, "join": 16}
 FNAME = {v: k for k, v in FID.items()}
 
 
@@ -285,6 +334,9 @@ def fdescribe(c):
     name, rev, cs, count, attr, fill, x = fdecode(c)
     opts = []
     if name in ("batch", "slice"): opts.append(str(count))
+    if name == "dictsort" and count: opts.append("by='value'")
+    if name == "join" and attr is not None:
+        opts.append(repr(attr)); attr = None
     if rev != 2: opts.append("reverse=%s" % bool(rev))
     if cs != 2: opts.append("case_sensitive=%s" % bool(cs))
     if attr is not None: opts.append("attribute=%r" % attr)
@@ -302,6 +354,11 @@ WIDE = SCAL + [I(0), I(-3), F(0.5), F(-0.0), I(0), S(""), S("B"), S("ab"), S("a"
                F(float('inf')), I(2**62), S("Ab"), S("aB")]
 BYTES = [Y([97]), Y([66]), Y([0, 255]), Y([99, 255]), Y([100])]
 ZZ = S("zz")
+DKEYS = [S("a"), S("B"), S("b"), S("A"), I(1), I(2)]
+TRUTH = [I(0), I(2), S(""), S("a"), L(), L(I(0)), IT(0), IT(0, N), IT(1), IT(2), B(0), B(1), N, U, F(0.0), F(-0.0), F(0x7ff8000000000000), F(0.5),
+         M(), M((S("a"), I(0))), T(), Y([]), Y([0]), P("x")]
+SUMS = [I(1), I(-3), I(2**62), I(0), U]
+JOINS = [S("a"), S(""), I(-12), I(7), S("b", 1), S("€"), I(0)]
 
 
 def containers(rng, items):
@@ -351,11 +408,53 @@ def gen_filters(chk):
         cases.append(fcase("batch", cont, count=2))
         cases.append(fcase("slice", cont, count=2))
         cases.append(fcase("groupby", cont, attr="a"))
+    # dictsort / items: maps over every ordered choice of up to 3 distinct keys ("a"/"A"/"b"/"B": Equal when case is ignored)
+    vi = 0
+    for nk in range(0, 4):
+        for ks in itertools.permutations(range(len(DKEYS)), nk):
+            for rep_ in range(2):
+                m = M(*[(DKEYS[k], SCAL[(vi + 5 * j + rep_) % 6]) for j, k in enumerate(ks)]); vi += 1
+                for by in (0, 1):
+                    for cs in (2, 1):
+                        for rev in (2, 1):
+                            cases.append(fcase("dictsort", m, rev=rev, cs=cs, count=by))
+                if rep_ == 0:
+                    cases.append(fcase("items", m))
+    for cont in (L(I(1)), N, U, S("ab"), I(3)):
+        cases.append(fcase("dictsort", cont)); cases.append(fcase("items", cont))
+    # map(attribute=..), select / reject, sum, join: every list of length <= 2 or 3 over small pools
+    for nn in range(0, 4):
+        for idx in itertools.product(range(len(MAPS) + 2), repeat=nn):
+            ms = [(MAPS + [U, I(7)])[i] for i in idx]
+            for d in (None, ZZ):
+                cases.append(fcase("map", L(*ms), attr="a", fill=d))
+    for nn in range(0, 3):
+        for idx in itertools.product(range(len(TRUTH)), repeat=nn):
+            xs = [TRUTH[i] for i in idx]
+            cases.append(fcase("select", L(*xs))); cases.append(fcase("reject", L(*xs)))
+    for nn in range(0, 4):
+        for idx in itertools.product(range(len(SUMS)), repeat=nn):
+            cases.append(fcase("sum", L(*[SUMS[i] for i in idx])))
+        for idx in itertools.product(range(len(JOINS)), repeat=nn):
+            for joiner in (None, ", ", ""):
+                cases.append(fcase("join", L(*[JOINS[i] for i in idx]), attr=joiner))
+    for cont in (T(I(1), I(2)), IT(0, I(1), I(2)), IT(2, I(1), I(2)), S("ab"), M((S("k0"), I(0)), (S("k1"), I(1))), N, U, I(3), P("x")):
+        for f in ("select", "reject", "sum", "join"):
+            cases.append(fcase(f, cont))
+        cases.append(fcase("map", cont, attr="a", fill=ZZ))
+    cases.append(fcase("sum", L(I(1), S("a")))); cases.append(fcase("sum", L(S("a")))); cases.append(fcase("sum", L(N)))
     # counts: zero, huge (an untrusted count must not become an allocation size)
     for count in (0, 2**62, 2**63 - 1, 2**64 - 1):
         cases.append(fcase("batch", L(I(1)), count=count))
         cases.append(fcase("batch", L(), count=count))
     cases.append(fcase("slice", L(I(1)), count=0))
+    # the limits: at most 100000 slices / 100000 fill items
+    for count in (100001, 2**62, 2**64 - 1):
+        cases.append(fcase("slice", L(I(1)), count=count)); cases.append(fcase("slice", L(), count=count, fill=ZZ))
+        cases.append(fcase("batch", L(I(1)), count=count + 1, fill=ZZ))
+    cases.append(fcase("batch", L(I(1), I(2)), count=100002, fill=ZZ))      # 100000 fill items: allowed
+    cases.append(fcase("batch", L(), count=2**62, fill=ZZ))                 # nothing to fill
+    cases.append(fcase("slice", L(I(1), I(2)), count=100000))
     # random longer lists (long enough for the merge phases of slice::sort_by)
     nrand = 6000 if chk.thorough else 1500
     for t in range(nrand):
@@ -375,6 +474,24 @@ def gen_filters(chk):
             f = rng.choice(["sort", "unique", "groupby"])
             cases.append(fcase(f, L(*ms), rev=rng.choice([2, 0, 1]) if f == "sort" else 2, cs=rng.choice([2, 0, 1]), attr="a",
                                fill=rng.choice([None, ZZ, I(1)]) if f == "groupby" else None))
+        elif r < 8:
+            f = rng.choice(["dictsort", "select", "reject", "sum", "join", "map"])
+            if f == "dictsort":
+                ks = list(DKEYS + [S("k%d" % i) for i in range(4)] + [S("ab"), S("Ab"), S("aB"), I(0), I(-3)])
+                m = []
+                for _ in range(min(n, 14)):
+                    if not ks: break
+                    m.append((ks.pop(rng.below(len(ks))), rng.choice(WIDE[:17])))
+                cases.append(fcase("dictsort", M(*m), rev=rng.choice([2, 0, 1]), cs=rng.choice([2, 0, 1]), count=rng.below(2)))
+            elif f in ("select", "reject"):
+                cases.append(fcase(f, rng.choice(containers(rng, [rng.choice(TRUTH + WIDE) for _ in range(n)]))))
+            elif f == "sum":
+                cases.append(fcase(f, rng.choice(containers(rng, [rng.choice(SUMS + [I(2**63 - 1), I(-2**63), I(17)]) for _ in range(n)]))))
+            elif f == "join":
+                cases.append(fcase(f, rng.choice(containers(rng, [rng.choice(JOINS + [I(2**63 - 1), I(-2**63), S("ab")]) for _ in range(n)])), attr=rng.choice([None, ", ", "-", ""])))
+            else:
+                ms = [amap(rng.choice(WIDE[:17] + [None]), i) for i in range(n)]
+                cases.append(fcase("map", L(*ms), attr="a", fill=rng.choice([None, ZZ, N])))
         else:
             xs = [rng.choice(WIDE) for _ in range(n)]
             f = rng.choice(["batch", "slice"])
@@ -417,6 +534,18 @@ def iter_items(x):
     return None
 
 
+def truthy(v):
+    """Value::is_true per the documentation: empty containers / strings, zero, none, undefined and false are false"""
+    t = v[0]
+    if t == 'b': return bool(v[1])
+    if t == 'i': return v[2] != 0
+    if t == 'f': return (v[1] & 0x7fffffffffffffff) != 0
+    if t in ('s', 'y', 'l', 't', 'm'): return len(v[-1]) > 0
+    if t == 'it': return len(v[2]) > 0
+    if t in ('n', 'u'): return False
+    return True
+
+
 def attr_of(item, attr, default=U):
     if item[0] == 'm':
         for k, v in item[1]:
@@ -457,7 +586,58 @@ def check_filter(c, out, orc):
     bad = []
     if out == [2] or (out and out[0] == "CRASH"):
         return [("no-panic", "the filter panicked / crashed the process (%r)" % (out[:2],), None)]
-    if fill is not None and fill in (U, N): fill = None
+    if name in ("batch", "slice", "groupby") and fill is not None and fill in (U, N): fill = None
+    if name in ("dictsort", "items"):
+        if x[0] != 'm':
+            return [] if out[0] == 1 else [("total", "%s of a value that is not a map must be an error" % name, None)]
+        if out[0] != 0:
+            return [("total", "%s of a map failed with error %s" % (name, ERR_NAMES.get(out[1], out[1])), None)]
+        res, _ = parse(out, 1)
+        pairs = [(canon(k), canon(v)) for k, v in sorted_pairs(x)]
+        if res[0] != ('l' if name == "dictsort" else 'it') or any(p[0] != 't' or len(p[1]) != 2 for p in items_of(res)):
+            return [("shape", "%s result is not a %s of pairs: %s" % (name, "list" if name == "dictsort" else "lazy iterable", show(res)), None)]
+        got = [(canon(p[1][0]), canon(p[1][1])) for p in items_of(res)]
+        if name == "items":
+            return [] if got == pairs else [("items", "items %s, the pairs in iteration order are %s" % (show(res), pairs), None)]
+        proj = (lambda p: p[1]) if count else (lambda p: p[0])
+        kf = (lambda p: lower(proj(p))) if cs != 1 else proj
+        if sorted(map(repr, got)) != sorted(map(repr, pairs)):
+            return [("dictsort-permutation", "output is not a permutation of the pairs of the map", None)]
+        for i in range(len(got) - 1):
+            cc = orc.cmp(kf(got[i]), kf(got[i + 1]))
+            if cc is None: continue
+            if (cc == GT and rev != 1) or (cc == LT and rev == 1):
+                return [("dictsort-ordered", "keys %s, %s at positions %d, %d are out of order (cmp = %s, reverse = %s, by = %s)" % (show(kf(got[i])), show(kf(got[i + 1])), i, i + 1, CMPN[cc], rev == 1, "value" if count else "key"), None)]
+        return stability(pairs, got, kf, orc, "dictsort-stable")
+    if name in ("map", "select", "reject", "sum", "join"):
+        its = iter_items(x)
+        if its is None:
+            return [] if out[0] == 1 else [("total", "%s of a value that is not iterable must be an error" % name, None)]
+        its = [canon(i) for i in its]
+        if name == "map":
+            dflt = canon(fill) if fill is not None else U
+            want, err = [], False
+            for it in its:
+                if it == U and dflt == U: err = True; break
+                want.append(attr_of(it, attr, dflt))
+            if err:
+                return [] if out[0] == 1 else [("map", "an undefined item without a default must be an error", None)]
+            want = ('l', tuple(want))
+        elif name in ("select", "reject"):
+            want = ('l', tuple(i for i in its if truthy(i) == (name == "select")))
+        elif name == "sum":
+            if any(i[0] not in ('i', 'u') for i in its):
+                return [] if out[0] == 1 else [("sum", "summing a value that is not a number must be an error", None)]
+            want = ('i', 0, sum(i[2] for i in its if i[0] == 'i'))
+        else:
+            if any(i[0] not in ('i', 's') for i in its): return []
+            want = ('s', 0, tuple(ord(ch) for ch in (attr or "").join(str(i[2]) if i[0] == 'i' else "".join(chr(c) for c in i[2]) for i in its)))
+        if out[0] != 0:
+            return [("total", "%s failed with error %s on an input it is defined for" % (name, ERR_NAMES.get(out[1], out[1])), None)]
+        res, _ = parse(out, 1)
+        if canon(res) != want:
+            return [(name, "result %s, expected %s" % (show(res), show(want)), None)]
+        return []
     items = iter_items(x)
     if name in ("reverse", "reverse2") and x[0] in ('s', 'y', 'u', 'n'):
         items = None
@@ -465,6 +645,8 @@ def check_filter(c, out, orc):
         items = None
     if out[0] == 1:
         ok_err = (items is None and x[0] not in ('s', 'y', 'u', 'n')) or (name in ("batch", "slice") and count == 0) or \
+                 (name == "slice" and count > 100000) or \
+                 (name == "batch" and fill is not None and items and len(items) % count and count - len(items) % count > 100000) or \
                  (name not in ("reverse", "reverse2") and x[0] == 'y') or (name in ("reverse", "reverse2") and x[0] == 'p') or \
                  (name in ("reverse", "reverse2") and x[0] in ('i', 'f', 'b')) or (name == "last" and x[0] in ('u', 'n', 'm'))
         if not ok_err:
@@ -478,6 +660,10 @@ def check_filter(c, out, orc):
         return [("shape", "unparsable result %r" % (ex,), None)]
     if name in ("batch", "slice") and count == 0:
         return [("total", "count 0 must be rejected", None)]
+    if name == "slice" and count > 100000:
+        return [("total", "more than 100000 slices must be rejected", None)]
+    if name == "batch" and fill is not None and items and len(items) % count and count - len(items) % count > 100000:
+        return [("total", "more than 100000 fill items must be rejected", None)]
     if name == "last":
         if iter_items(x) is None:
             return [] if x[0] == 'y' else [("total", "a result for a value that has no last item", None)]
@@ -635,32 +821,82 @@ def filter_key_pool():
     def add(v):
         v = ckey(v)
         if v not in vals: vals.append(v)
-    for v in WIDE + BYTES + MAPS + [ZZ, U, N, I(7), I(0), I(1)] + [S("k%d" % i) for i in range(4)]:
+    for v in WIDE + BYTES + MAPS + DKEYS + [ZZ, U, N, I(7), I(0), I(1)] + [S("k%d" % i) for i in range(4)]:
         add(v); add(lower(v))
     return vals
 
 
 # ----------------------------------------------------------------------------------------
+# targets: the default build (BTreeMap maps) and the `preserve_order` build (IndexMap maps)
+# ----------------------------------------------------------------------------------------
+import vlib as _vlib
+
+
+class Target:
+    def __init__(self, name, order, runner, coq_run, bins):
+        self.name, self.order, self.runner, self.coq_run, self.bins = name, order, runner, coq_run, bins
+
+
+def po_target_dir():
+    return os.path.join(_vlib.CACHE, "target-po" + _vlib._TAG)
+
+
+def cargo_build_po(release):
+    """harness bin c07 with feature preserve_order, in its own cargo target dir (it would thrash the shared one)"""
+    h = _vlib.harness_dir()
+    env = dict(_vlib.ENV); env["CARGO_TARGET_DIR"] = po_target_dir()
+    with _vlib.Lock("cargo" + _vlib._TAG):
+        lock_dst = os.path.join(h, "Cargo.lock")
+        if not os.path.exists(lock_dst):
+            sh(["cp", os.path.join(_vlib.REPO, "Cargo.lock"), lock_dst])
+        cmd = ["cargo", "build", "--offline", "--quiet", "--bin", "c07", "--features", "preserve_order"] + (["--release"] if release else [])
+        rc, o, e = sh(cmd, cwd=h, timeout=3000, env=env)
+        return rc == 0, o + e
+
+
+def corr_t(chk, tgt, cases, kernel_sample, profiles=(False, True)):
+    """impl (the given profiles of this target) vs extracted model vs (sample) kernel"""
+    res = {"model": run_model("C07", tgt.runner, cases) if cases else [], "impl": {}, "mismatches": [], "kernel_ok": True, "kernel_checked": 0}
+    for rel in profiles:
+        res["impl"][rel] = run_lines([tgt.bins[rel]], cases) if cases else []
+    if kernel_sample and cases:
+        step = max(1, len(cases) // kernel_sample)
+        idx = list(range(0, len(cases), step))[:kernel_sample]
+        kern = kernel_eval(tgt.coq_run, [cases[i] for i in idx], "k_C07_" + tgt.runner.replace("-", "_"), imports="Common.Base C07.Model C07.Runner")
+        if kern is None:
+            res["kernel_ok"] = False
+        else:
+            bad = [idx[j] for j in range(len(idx)) if j >= len(kern) or kern[j] != res["model"][idx[j]]]
+            res["kernel_ok"] = not bad
+            res["kernel_bad"] = bad
+            res["kernel_checked"] = len(idx)
+    return res
+
+
 def main():
+    global ORDER
     chk = Check("C07", "proof")
     chk.cov["trusted_base"] = TRUSTED_COMMON + ["Print Assumptions: every theorem of Props/C07.v closed under the global context (no axioms)"]
     chk.assumptions = [
-        "values: machine integers in range of their representation, floats = IEEE binary64 bit patterns, maps satisfy the BTreeMap invariant (keys strictly ascending); default feature set (BTreeMap-backed maps, `unicode` off: ASCII case folding)",
-        "modelled: impl PartialEq/Ord/Hash for Value, ops.rs::{as_f64,coerce}, TryFrom<Value> for i64/i128, Hash for DynObject, BTreeMap get/insert, filters.rs::{cmp_helper,sort,unique,groupby,batch,slice,reverse,min,max}; slice::sort_by is modelled as a stable insertion sort, the hasher as a function of the byte stream it is fed",
-        "object identity (is_same_object), custom_cmp objects, maps of unknown length and Invalid values are outside the model and the pools",
+        "values: machine integers in range of their representation, floats = IEEE binary64 bit patterns; maps satisfy the invariant of their implementation (BTreeMap: keys strictly ascending; IndexMap: no two equal keys); `unicode` feature off (ASCII case folding)",
+        "modelled: impl PartialEq/Ord/Hash for Value, ops.rs::{as_f64,coerce}, TryFrom<Value> for i64/i128, Hash for DynObject, BTreeMap and IndexMap get/insert, filters.rs::{cmp_helper,sort,unique,groupby,batch,slice,reverse,min,max,last,dictsort,items,map(attribute),select,reject,sum,join}; slice::sort_by is modelled as a stable insertion sort, the hasher as a function of the byte stream it is fed (IndexMap lookups with full hashes)",
+        "object identity (is_same_object), custom_cmp objects and maps of unknown length are outside the model and the pools; sum is modelled for integers, join for strings and integers without auto-escaping",
+        "IndexMap target: pairs in which a bool and a number that are == meet as keys / probes are left out (the lookup then depends on the map's random hasher state, a consequence of the bool-number known finding)",
         "byte strings in the filter pools are pure ASCII or contain 0xFF (Value::as_str's UTF-8 validation, used by `last`, is modelled for these only); slice with a huge count is not exercised (its output has `count` runs by definition)"]
     ok_models, blog = build_models("C07")
     proofs_ok = chk.run_proofs()
-    okc, clog = cargo_build(["c07"], release=False)
-    okr, clog2 = cargo_build(["c07"], release=True)
-    if not (okc and okr):
-        chk.violation("harness does not build against the current /repo tree", {"theorem_or_correspondence": "build of harness/src/bin/c07.rs", "log": (clog + clog2)[-1500:]}, True)
+    builds = [cargo_build(["c07"], release=False), cargo_build(["c07"], release=True), cargo_build_po(False), cargo_build_po(True)]
+    if not all(b[0] for b in builds):
+        chk.violation("harness does not build against the current /repo tree", {"theorem_or_correspondence": "build of harness/src/bin/c07.rs (default and preserve_order)", "log": "".join(b[1] for b in builds)[-1500:]}, True)
         chk.finish()
     if not ok_models:
         chk.violation("model build failed", {"theorem_or_correspondence": "coq/theories/C07/Model.v build", "log": blog[-1500:]}, True)
         chk.finish()
+    targets = [Target("btreemap", "sorted", "c07", "run", {rel: bin_path("c07", rel) for rel in (False, True)}),
+               Target("indexmap", "insertion", "c07-po", "(run_o Insertion)",
+                      {rel: os.path.join(po_target_dir(), "release" if rel else "debug", "c07") for rel in (False, True)})]
 
-    found = collections.OrderedDict()     # (law, class) -> first replay
+    found = collections.OrderedDict()     # law -> first replay
     counts = collections.Counter()
 
     def register(law, msg, replay, classes):
@@ -675,119 +911,138 @@ def main():
         if law not in found:
             found[law] = (msg, replay)
 
-    # ---------------- mode A: pairs and triples ----------------
+    rp = None
     if chk.replay:
         rp = json.load(open(chk.replay))["replay"]
-        if "values" in rp:
-            pool = [tuple_deep(v) for v in rp["values"]]
-        else:
-            pool = []
+        pool = [tuple_deep(v) for v in rp["values"]] if "values" in rp else []
         fcases = [rp["case"]] if "case" in rp else []
         exn = 0
+        if rp.get("target"):
+            targets = [t for t in targets if t.name == rp["target"]]
     else:
         pool = pool_a(chk.thorough)
         fcases, exn = gen_filters(chk)
     n = len(pool)
-    pcases = [pair_case(a, b) for a in pool for b in pool]
-    r = corr(chk, "run", "c07", "c07", pcases, kernel_sample=30) if pcases else {"model": [], "impl": {False: [], True: []}, "mismatches": [], "kernel_ok": True}
-    cls = run_model("C07", "c07-classify", pcases) if pcases else []
-    class_mismatch = []
-    for idx, c in enumerate(pcases):
-        i, j = divmod(idx, n)
-        py = [1 if cross_class(pool[i], pool[j]) else 0, 0 if (has_nan(pool[i]) or has_nan(pool[j])) else 1]
-        if cls[idx] != py:
-            class_mismatch.append((idx, cls[idx], py))
-    ntriples = 0
-    for rel in (False, True):
-        prof = "release" if rel else "debug"
-        tab = Table(pool, r["impl"][rel], n)
-
-        def report(law, msg, idxs, profile):
-            vals = [pool[i] for i in idxs]
-            cls_ = cross_classes(vals[0], vals[1]) if len(vals) == 2 else None
-            register(law, msg, {"values": vals, "shown": [show(v) for v in vals], "law": law, "observed": msg, "profile": profile,
-                                "how": "./check C07 --replay <this file>"}, cls_)
-        if n:
-            check_pair_laws(tab, prof, report)
-            if chk.thorough or n <= 130:
-                triples = ((i, j, k) for i in range(n) for j in range(n) for k in range(n))
-            else:
-                triples = ((chk.rng.below(n), chk.rng.below(n), chk.rng.below(n)) for _ in range(20000))
-            ntriples += check_triple_laws(tab, prof, report, triples)
-
-    # ---------------- mode B: filters ----------------
-    fk = filter_key_pool()
-    fkc = [pair_case(a, b) for a in fk for b in fk]
-    fr = {rel: run_impl("c07", fkc, release=rel) for rel in (False, True)}
-    rf = corr(chk, "run", "c07", "c07", fcases, kernel_sample=20) if fcases else {"model": [], "impl": {False: [], True: []}, "mismatches": [], "kernel_ok": True}
     hist = collections.Counter()
     nontriv = set()
     missing = set()
-    for rel in (False, True):
-        prof = "release" if rel else "debug"
-        ct, et = {}, {}
-        for idx, o in enumerate(fr[rel]):
-            i, j = divmod(idx, len(fk))
-            if len(o) == 7:
-                ct[(fk[i], fk[j])] = o[1]; et[(fk[i], fk[j])] = o[0]
-        orc = Oracle(ct, et)
-        for ci, c in enumerate(fcases):
-            out = rf["impl"][rel][ci]
-            for law, msg, kcls in check_filter(c, out, orc):
-                register(law, msg, {"case": c, "describe": fdescribe(c), "law": law, "observed": msg, "profile": prof,
-                                    "implementation": out[:60], "how": "./check C07 --replay <this file>"}, kcls)
-            if not rel:
-                name = FNAME[c[1]]
-                hist["filter=" + name] += 1
-                if out and out[0] == 0 and len(out) > 6: nontriv.add(tuple(c))
-        missing |= orc.missing
+    failures = []          # (what, payload) machinery problems without a failing input
+    evaluations = 0
+    ntriples = 0
+    skipped_hash_dependent = 0
+    disagreements = 0
+    kernel_cases, kernel_ok = 0, True
+    samples = []
+    for tgt in targets:
+        ORDER = tgt.order
+        # ---------------- mode A: pairs and triples ----------------
+        keep = [(i, j) for i in range(n) for j in range(n) if not (tgt.order == "insertion" and hash_dependent(pool[i], pool[j]))]
+        skipped_hash_dependent += n * n - len(keep)
+        pcases = [pair_case(pool[i], pool[j]) for (i, j) in keep]
+        r = corr_t(chk, tgt, pcases, 30 if tgt.order == "sorted" else 10)
+        cls = run_model("C07", tgt.runner + "-classify", pcases) if pcases else []
+        for idx, (i, j) in enumerate(keep):
+            py = [1 if cross_class(pool[i], pool[j]) else 0, 0 if (has_nan(pool[i]) or has_nan(pool[j])) else 1, 1 if reordered(pool[i], pool[j]) else 0]
+            if cls[idx] != py:
+                failures.append(("known-finding classification differs between Coq (cross_kind / nan_free / reordered) and the check",
+                                 {"theorem_or_correspondence": "C07.Spec.cross_kind vs tools/props/C07.py::cross_class", "target": tgt.name, "case": pcases[idx], "coq": cls[idx], "python": py}))
+                break
+        pos = {ij: idx for idx, ij in enumerate(keep)}
+        for rel in (False, True):
+            prof = "release" if rel else "debug"
+            outs = r["impl"][rel]
+            tab = Table(pool, [outs[pos[(i, j)]] if (i, j) in pos else ["skipped"] for i in range(n) for j in range(n)], n)
+
+            def report(law, msg, idxs, profile):
+                vals = [pool[i] for i in idxs]
+                cls_ = None
+                if len(vals) == 2:
+                    cls_ = set(cross_classes(vals[0], vals[1]))
+                    if tgt.order == "insertion" and reordered(vals[0], vals[1]): cls_.add("map-insertion-order")
+                register(law, msg, {"values": vals, "shown": [show(v) for v in vals], "law": law, "observed": msg, "profile": profile, "target": tgt.name,
+                                    "how": "./check C07 --replay <this file>"}, cls_)
+            if n:
+                check_pair_laws(tab, prof, report)
+                if chk.thorough or n <= 130:
+                    triples = ((i, j, k) for i in range(n) for j in range(n) for k in range(n))
+                else:
+                    triples = ((chk.rng.below(n), chk.rng.below(n), chk.rng.below(n)) for _ in range(20000))
+                ntriples += check_triple_laws(tab, prof, report, triples)
+        # ---------------- mode B: filters ----------------
+        fk = filter_key_pool()
+        fkc = [pair_case(a, b) for a in fk for b in fk]
+        # the quick tier runs the filters of the IndexMap target in the release build only
+        fprof = (False, True) if (tgt.order == "sorted" or chk.thorough or chk.replay) else (True,)
+        fr = {rel: run_lines([tgt.bins[rel]], fkc) for rel in fprof}
+        rf = corr_t(chk, tgt, fcases, 20 if tgt.order == "sorted" else 6, fprof)
+        for rel in fprof:
+            prof = "release" if rel else "debug"
+            ct, et = {}, {}
+            for idx, o in enumerate(fr[rel]):
+                i, j = divmod(idx, len(fk))
+                if len(o) == 7:
+                    ct[(fk[i], fk[j])] = o[1]; et[(fk[i], fk[j])] = o[0]
+            orc = Oracle(ct, et)
+            for ci, c in enumerate(fcases):
+                out = rf["impl"][rel][ci]
+                for law, msg, kcls in check_filter(c, out, orc):
+                    register(law, msg, {"case": c, "describe": fdescribe(c), "law": law, "observed": msg, "profile": prof, "target": tgt.name,
+                                        "implementation": out[:60], "how": "./check C07 --replay <this file>"}, kcls)
+                if not rel and tgt.order == "sorted":
+                    hist["filter=" + FNAME[c[1]]] += 1
+                    if out and out[0] == 0 and len(out) > 6: nontriv.add(tuple(c))
+            missing |= orc.missing
+        for what, rr, cs in (("pair", r, pcases), ("filter", rf, fcases)):
+            mm = [(i, rel) for i in range(len(cs)) for rel in sorted(rr["impl"]) if rr["impl"][rel][i] != rr["model"][i]]
+            disagreements += len(mm)
+            if mm:
+                i, rel = mm[0]
+                failures.append(("model and implementation disagree (%s, %s target)" % (what, tgt.name),
+                                 {"theorem_or_correspondence": "correspondence C07.Runner.%s vs harness c07" % tgt.coq_run, "target": tgt.name, "case": cs[i],
+                                  "describe": fdescribe(cs[i]) if what == "filter" else [show(pool[k]) for k in keep[i]],
+                                  "implementation": rr["impl"][rel][i][:80], "model": rr["model"][i][:80], "profile": "release" if rel else "debug"}))
+            kernel_cases += rr.get("kernel_checked", 0)
+            if not rr.get("kernel_ok", False):
+                kernel_ok = False
+                failures.append(("kernel evaluation disagrees with extracted model", {"theorem_or_correspondence": "vm_compute cross-check of extraction", "target": tgt.name, "cases": rr.get("kernel_bad")}))
+        evaluations += len(pcases) * 2 + (len(fkc) + len(fcases)) * len(fprof)
+        if n and tgt.order == "sorted":
+            samples += [{"a": show(pool[i]), "b": show(pool[j]), "answers [eq,cmp,hash_eq,a<b,a==b,a in [b],{b:1}[a] defined]": r["impl"][False][pos[(i, j)]]}
+                        for (i, j) in ((2, 5), (n // 2, n // 3), (n - 1, n - 2)) if (i, j) in pos]
+            samples += [dict(fdescribe(fcases[i]), output=rf["impl"][False][i][:40]) for i in (0, len(fcases) // 2, len(fcases) - 1) if fcases]
+    ORDER = "sorted"
 
     # ---------------- coverage ----------------
-    for idx in range(len(pcases)):
-        i, j = divmod(idx, n)
-        hist["pair:%s/%s" % (pool[i][0], pool[j][0])] += 1
     kinds = collections.Counter("pair-kinds:" + "/".join(sorted((a[0], b[0]))) for a in pool for b in pool)
     nt_pairs = sum(1 for i in range(n) for j in range(n) if i != j)
-    chk.cov["evaluations"] = (len(pcases) + len(fkc) + len(fcases)) * 2
+    chk.cov["evaluations"] = evaluations
     chk.cov["distinct_nontrivial"] = nt_pairs + len(nontriv)
-    chk.cov["rule"] = ("pairs: all %d ordered pairs of a %d-value pool (every kind, integer widths at their boundaries, floats by bit pattern incl. +-0/inf/NaN/2^53/2^63/2^64/2^127/2^128, "
-                       "strings small/heap/safe, bytes, lists, tuples, sized+unsized lazy iterables, maps in both insertion orders, plain objects, nestings), all laws incl. %d triples per profile; "
-                       "filters: exhaustive lists of length <= %d over 6-value pools x all keyword options (first %d cases) + container shapes + seeded long lists (up to 150 items); "
-                       "each case in a debug and a release build; non-trivial = ordered pair of two different pool values + distinct filter case with a non-empty result"
-                       % (len(pcases), n, ntriples // 2, 5 if chk.thorough else 4, exn))
+    chk.cov["rule"] = ("two targets (default build with BTreeMap maps; `preserve_order` build with IndexMap maps), each in a debug and a release build (quick tier: the filters of the IndexMap target in the release build only). "
+                       "pairs: all %d ordered pairs of a %d-value pool (every kind, integer widths at their boundaries, floats by bit pattern incl. +-0/inf/NaN/2^53/2^63/2^64/2^127/2^128, "
+                       "strings small/heap/safe, bytes, lists, tuples, sized+unsized lazy iterables, maps in both insertion orders, plain objects, nestings), all laws incl. %d triples per target and profile; "
+                       "filters (17): exhaustive lists of length <= %d over 6-value pools x all keyword options (first %d cases) + maps over every ordered choice of <= 3 keys + container shapes + seeded long lists (up to 150 items); "
+                       "non-trivial = ordered pair of two different pool values + distinct filter case with a non-empty result (counted once, not per target)"
+                       % (n * n, n, ntriples // max(1, 2 * len(targets)), 5 if chk.thorough else 4, exn))
     chk.cov["exhaustive"] = False
     chk.cov["exhaustive_subbox_cases"] = exn
-    chk.cov["samples"] = ([{"a": show(pool[i]), "b": show(pool[j]), "answers [eq,cmp,hash_eq,a<b,a==b,a in [b],{b:1}[a] defined]": r["impl"][False][i * n + j]}
-                           for (i, j) in ((2, 5), (n // 2, n // 3), (n - 1, n - 2))] if n else []) + \
-                          [dict(fdescribe(fcases[i]), output=rf["impl"][False][i][:40]) for i in (0, len(fcases) // 2, len(fcases) - 1) if fcases]
+    chk.cov["samples"] = samples
     chk.cov["distribution"] = dict(collections.Counter({k: v for k, v in hist.items() if k.startswith("filter=")}) + collections.Counter(dict(kinds.most_common(25))))
     chk.cov["law_outcomes"] = dict(counts)
-    chk.cov["impl_vs_model_disagreements"] = len(r["mismatches"]) + len(rf["mismatches"])
-    chk.cov["kernel_crosscheck"] = {"cases": r.get("kernel_checked", 0) + rf.get("kernel_checked", 0), "agree": bool(r.get("kernel_ok", False) and rf.get("kernel_ok", False))}
+    chk.cov["impl_vs_model_disagreements"] = disagreements
+    chk.cov["indexmap_pairs_left_out_as_hash_dependent"] = skipped_hash_dependent
+    chk.cov["kernel_crosscheck"] = {"cases": kernel_cases, "agree": kernel_ok}
     if missing:
         chk.notes["oracle_pairs_without_table_entry"] = len(missing)
+        failures.append(("oracle lacks comparison answers for some keys", {"theorem_or_correspondence": "tools/props/C07.py::filter_key_pool", "pairs": [list(map(show, k)) for k in list(missing)[:5]]}))
+    if not proofs_ok:
+        failures.append(("proof obligations of C07 do not check", {"theorem_or_correspondence": chk.proof["problems"]}))
 
     # ---------------- verdicts ----------------
     for law, (msg, replay) in list(found.items())[:8]:
         chk.violation("%s: %s" % (law, msg), replay)
     if not found:
-        mm = [("pair", r, pcases)] if r["mismatches"] else []
-        if rf["mismatches"]: mm.append(("filter", rf, fcases))
-        for what, rr, cs in mm[:1]:
-            i, rel = rr["mismatches"][0]
-            chk.violation("model and implementation disagree (%s)" % what, {"theorem_or_correspondence": "correspondence C07.Runner.run vs harness c07",
-                          "case": cs[i], "describe": fdescribe(cs[i]) if what == "filter" else [show(v) for v in (pool[i // n], pool[i % n])],
-                          "implementation": rr["impl"][rel][i][:80], "model": rr["model"][i][:80], "profile": "release" if rel else "debug"}, True)
-        if class_mismatch:
-            idx, got, py = class_mismatch[0]
-            chk.violation("known-finding classification differs between Coq (cross_kind / nan_free) and the check", {"theorem_or_correspondence": "C07.Spec.cross_kind vs tools/props/C07.py::cross_class",
-                          "case": pcases[idx], "coq": got, "python": py}, True)
-        if missing:
-            chk.violation("oracle lacks comparison answers for some keys", {"theorem_or_correspondence": "tools/props/C07.py::filter_key_pool", "pairs": [list(map(show, k)) for k in list(missing)[:5]]}, True)
-        if not (r.get("kernel_ok", False) and rf.get("kernel_ok", False)):
-            chk.violation("kernel evaluation disagrees with extracted model", {"theorem_or_correspondence": "vm_compute cross-check of extraction", "cases": [r.get("kernel_bad"), rf.get("kernel_bad")]}, True)
-        if not proofs_ok:
-            chk.violation("proof obligations of C07 do not check", {"theorem_or_correspondence": chk.proof["problems"]}, True)
+        for what, payload in failures[:3]:
+            chk.violation(what, payload, True)
     chk.finish()
 
 
